@@ -67,7 +67,7 @@ def xiseven_odd(number, odd=False):
         number = 0
     try:
         v = int(_text2num(number)) % 2
-    except (ValueError, TypeError):  # Not a number (e.g., text).
+    except (ValueError, TypeError, OverflowError):  # Not a number (e.g., text).
         return Error.errors['#VALUE!']
     return v != 0 if odd else v == 0
 
